@@ -31,7 +31,8 @@ ColumnStep(ev) ==
                        IF Len(ev.cols[j]) # Len(exp)
                        THEN [at |-> l, tr |-> ev.tr, op |-> ev.op, sl |-> ev.sl, e |-> ev.e, expres |-> "column length", actres |-> "differs",
                              exp |-> Len(exp), act |-> Len(ev.cols[j])]
-                       ELSE LET k == Min({x \in DOMAIN exp : ev.cols[j][x] # exp[x]}) IN
+                       ELSE LET bad == {x \in DOMAIN exp : ev.cols[j][x] # exp[x]}      \* report a shortest signer list
+                                k == CHOOSE x \in bad : \A y \in bad : Len(ms[x]) < Len(ms[y]) \/ (Len(ms[x]) = Len(ms[y]) /\ x <= y) IN
                             [at |-> l, tr |-> ev.tr, op |-> ev.op, sl |-> ev.sl, e |-> ev.e, src |-> ev.srcs[j], k |-> k,
                              signers |-> Paths(ev.sl, ms[k]), target |-> Slices[ev.sl].tgt, rules |-> EnvOf(ev.sl, ev.e),
                              expres |-> Cls(exp[k] = 1), actres |-> Cls(ev.cols[j][k] = 1),
